@@ -25,6 +25,10 @@ Reading used here
   the listed set as changed by later calls: the last Trust(p)/Distrust(p) call
   decides, the configuration decides when there was none. (Under '*' and in Raft
   everyone stays trusted: Distrust only edits the listed set.)
+* "the configuration" is the list of trusted peers in effect after the configuration's sources:
+  a file replaces what was there, `CLUSTER_CRDT_TRUSTEDPEERS` overrides the file (set to the empty
+  string: nobody), the defaults are '*' (what `init` writes), an unset variable changes nothing
+  (`effectiveList`).
 * "refused" = the remote RPC client gets an authorization error.
 -/
 import ClusterVerif.Model.C07
@@ -110,13 +114,26 @@ inductive Mode where
   | raft | crdt
   deriving DecidableEq, Repr
 
-/-- a trust configuration and the calls made since: `raw` is the configured list
-    (`none` is '*') -/
+/-- which list of trusted peers is in effect after the configuration sources: a file replaces what
+    was there, an environment list overrides the file, the defaults are "*" (what `init` writes),
+    an unset environment variable changes nothing -/
+def effStep (eff : List (Option Nat)) : Source → List (Option Nat)
+  | .default => [none]
+  | .load raw => raw
+  | .env none => eff
+  | .env (some raw) => raw
+
+def effectiveList (srcs : List Source) : List (Option Nat) := srcs.foldl effStep []
+
+/-- a trust configuration (where it came from) and the calls made since -/
 structure TrustSetting where
   mode : Mode
-  raw : List (Option Nat)
+  srcs : List Source
   ops : List TOp
   deriving Repr
+
+/-- the configured list in effect (`none` is '*') -/
+def TrustSetting.raw (ts : TrustSetting) : List (Option Nat) := effectiveList ts.srcs
 
 def starListed (raw : List (Option Nat)) : Bool := raw.contains none
 
@@ -192,6 +209,18 @@ def trustClauses (i : TrustInput) (o : Bool) : List (String × Bool) :=
   [ ("trust_follows_config_and_calls", i.p == i.self || o == specTrusted i.ts i.p) ]
 
 def trustHolds (i : TrustInput) (o : Bool) : Bool := (trustClauses i o).all (·.2)
+
+/-! ### observation 2b: the crdt `Config` after its sources -/
+
+def sameSetNat (a b : List Nat) : Bool := a.all b.contains && b.all a.contains
+
+/-- TrustAll says whether '*' is in effect; without '*', TrustedPeers is the list in effect -/
+def cfgClauses (srcs : List Source) (trustAll : Bool) (peers : List Nat) : List (String × Bool) :=
+  let eff := effectiveList srcs
+  [ ("config_follows_sources",
+      trustAll == starListed eff && (starListed eff || sameSetNat peers (eff.filterMap id))) ]
+
+def cfgHolds (srcs : List Source) (trustAll : Bool) (peers : List Nat) : Bool := (cfgClauses srcs trustAll peers).all (·.2)
 
 /-! ### observation 3: an observer's pinset after peers published updates (CRDT) -/
 
